@@ -279,7 +279,12 @@ RESTART:
 		return tmconsensus.HandleProposedHeaderSignerUnrecognized
 	case tmi.PHCheckNextHeight:
 		// Special case: we make an additional request to the kernel if the PH is for the next height.
-		m.backfillCommitForNextHeightPE(ctx, req.PH)
+		if m.backfillCommitForNextHeightPE(ctx, req.PH) != backfillCommitAccepted {
+			// The previous commit proof added nothing to the voting round,
+			// so the kernel would only repeat the same answer:
+			// the header stays beyond what we can accept.
+			return tmconsensus.HandleProposedHeaderRoundTooFarInFuture
+		}
 		goto RESTART // TODO: find a cleaner way to apply the proposed block after backfilling commit.
 	case tmi.PHCheckRoundTooOld:
 		return tmconsensus.HandleProposedHeaderRoundTooOld
